@@ -63,9 +63,16 @@ OPTIONS = ("ignore_occupancy", "ignore_autoclashes", "nucleic_acid_only", "requi
 class Raised(Exception):
     """The evaluated code raises on a representative (explicit `raise`, or KeyError/IndexError/... of an interpreted operation)."""
 
-    def __init__(self, what: str, node: Optional[ast.AST] = None):
+    def __init__(self, what: str, node: Optional[ast.AST] = None, orig: Optional[BaseException] = None):
         super().__init__(what)
-        self.what, self.node = what, node
+        self.what, self.node, self.orig = what, node, orig
+
+
+def _raised(ex: BaseException, e: ast.AST) -> "Raised":
+    """the program's own exception, located at the innermost subscript that raised it when known"""
+    at = getattr(ex, "_c17_node", None)
+    where = at if at is not None else e
+    return Raised(f"{type(ex).__name__}({', '.join(map(repr, ex.args))[:40]}) in `{ast.unparse(where)[:70]}`", where if hasattr(where, "lineno") else e, ex)
 
 
 PROGRAM_ERRORS = (KeyError, IndexError, ZeroDivisionError, ValueError, StopIteration)
@@ -270,6 +277,79 @@ class KDTreeModel(Stub):
         self.log.append(float(r))
         self._asked()
         return [other._near(p, r) for p in self.points]
+
+    def sparse_distance_matrix(self, other, max_distance, p=2.0, output_type="dok_matrix", *a, **k):
+        """every (i, j) with |x_i - y_j| <= max_distance and its distance, both orders and i == j for the tree with itself; a
+        distance of exactly 0 is a stored entry like any other"""
+        if not isinstance(other, KDTreeModel) or not isinstance(max_distance, (int, float)) or isinstance(max_distance, bool) or p != 2.0:
+            raise NotConst("KD-tree sparse distance matrix")
+        self.log.append(float(max_distance))
+        self._asked()
+        ent = []
+        for i, x in enumerate(self.points):
+            for j in other._near(x, max_distance):
+                ent.append((IdxS(i), j, _norm(x - other.points[j])))
+        return SparseS(ent, (len(self.points), len(other.points)))
+
+
+class SparseS(Stub):
+    """scipy.sparse matrix as far as a neighbour search uses it: stored entries (row, column, value); explicit zeros are entries"""
+
+    def __init__(self, entries, shape):
+        self.entries = list(entries)
+        self.shape = shape
+
+    row = property(lambda self: [e[0] for e in self.entries])
+    col = property(lambda self: [e[1] for e in self.entries])
+    data = property(lambda self: [e[2] for e in self.entries])
+    nnz = property(lambda self: len(self.entries))
+
+    def keys(self):
+        return [(e[0], e[1]) for e in self.entries]
+
+    def values(self):
+        return [e[2] for e in self.entries]
+
+    def items(self):
+        return [((e[0], e[1]), e[2]) for e in self.entries]
+
+    def __iter__(self):
+        return iter(self.keys())
+
+    def __len__(self):
+        return len(self.entries)
+
+    def __getitem__(self, ij):
+        for e in self.entries:
+            if (e[0], e[1]) == tuple(ij):
+                return e[2]
+        return 0.0
+
+    def nonzero(self):
+        nz = [e for e in self.entries if e[2] != 0]
+        return ([e[0] for e in nz], [e[1] for e in nz])
+
+    def tocoo(self, *a, **k):
+        return self
+
+    todok = tocsr = tocsc = tocoo
+
+
+def _sparse_tri(upper: bool):
+    def tri(m, k=0, *a, **kw):
+        if not isinstance(m, SparseS):
+            raise NotConst("triu / tril of a value that is not a sparse matrix stub")
+        return SparseS([e for e in m.entries if ((e[1] - e[0] >= k) if upper else (e[1] - e[0] <= k))], m.shape)
+
+    return tri
+
+
+def _sparse_find(m):
+    """scipy.sparse.find: row indices, column indices and values of the NON-ZERO entries"""
+    if not isinstance(m, SparseS):
+        raise NotConst("find of a value that is not a sparse matrix stub")
+    nz = [e for e in m.entries if e[2] != 0]
+    return ([e[0] for e in nz], [e[1] for e in nz], [e[2] for e in nz])
 
 
 _serial = itertools.count(1)
@@ -789,6 +869,7 @@ def stdlib(repo, module) -> Dict[str, Any]:
         "heapq": ns(nlargest=heapq.nlargest, nsmallest=heapq.nsmallest),
         "collections": ns(defaultdict=BASE["defaultdict"], OrderedDict=dict, namedtuple=_namedtuple_factory(repo, module)),
         "pathlib": ns(Path=PathS, PurePath=PathS),
+        "scipy.sparse": ns(find=_sparse_find, triu=_sparse_tri(True), tril=_sparse_tri(False)),
     }
 
 
@@ -835,6 +916,17 @@ class F(Folder):
 
     def _f_IfExp(self, n):
         return self.fold(n.body) if self.ev.cond(n.test, self) else self.fold(n.orelse)
+
+    def _f_Subscript(self, n):
+        try:
+            return Folder._f_Subscript(self, n)
+        except (KeyError, IndexError) as ex:
+            if getattr(ex, "_c17_node", None) is None:
+                try:
+                    ex._c17_node = n  # the innermost subscript that raises
+                except Exception:
+                    pass
+            raise
 
     def _f_Call(self, n):
         f = n.func
@@ -964,7 +1056,7 @@ class Ev(BlockEval):
         except NotConst as ex:
             raise Unknown(f"`{ast.unparse(e)[:60]}`: {ex}")
         except PROGRAM_ERRORS as ex:
-            raise Raised(f"{type(ex).__name__}({', '.join(map(repr, ex.args))[:40]}) in `{ast.unparse(e)[:60]}`", e)
+            raise _raised(ex, e)
         except RecursionError:
             raise Unknown("recursion")
 
@@ -1041,7 +1133,7 @@ class Ev(BlockEval):
         except NotConst as ex:
             raise Unknown(f"`{ast.unparse(e)[:60]}`: {ex}")
         except PROGRAM_ERRORS as ex:
-            raise Raised(f"{type(ex).__name__}({', '.join(map(repr, ex.args))[:40]}) in `{ast.unparse(e)[:60]}`", e)
+            raise _raised(ex, e)
         finally:
             if transparent:
                 Ev.cond_depth -= 1
@@ -1224,11 +1316,51 @@ class Ev(BlockEval):
             c = st.value
             f = c.func
             if isinstance(f, ast.Attribute) and isinstance(f.value, ast.Name) and f.value.id in ("logging", "logger", "warnings") and f.value.id not in self.env:
+                # the message goes nowhere, but its arguments are evaluated whatever the log level: what they do to the
+                # containers they read (a defaultdict look-up inserts) is part of the program
+                for a_ in list(c.args) + [k_.value for k_ in c.keywords]:
+                    try:
+                        self.fold(a_)
+                    except Unknown:
+                        pass  # a diagnostic the evaluator does not read
                 return
             self.fold(c)
         elif isinstance(st, ast.Expr):
             if not isinstance(st.value, (ast.Constant, ast.Name)):
                 self.fold(st.value)
+        elif isinstance(st, ast.Try):
+            # the program's own handlers see the program's own exceptions (KeyError / IndexError ... of interpreted operations)
+            from sa.blockeval import _EXC
+
+            try:
+                self._block(st.body)
+            except Raised as r:
+                ex = r.orig
+                if ex is None:
+                    raise
+                for h in st.handlers:
+                    names = [] if h.type is None else ([ast.unparse(t).split(".")[-1] for t in h.type.elts] if isinstance(h.type, ast.Tuple) else [ast.unparse(h.type).split(".")[-1]])
+                    if h.type is None or type(ex).__name__ in names or any(t in _EXC and isinstance(ex, _EXC[t]) for t in names):
+                        if h.name:
+                            self.env[h.name] = ex
+                        try:
+                            self._block(h.body)
+                        finally:
+                            if st.finalbody:
+                                self._block(st.finalbody)
+                        break
+                else:
+                    if st.finalbody:
+                        self._block(st.finalbody)
+                    raise
+            except (_Stop, Unknown):
+                if st.finalbody and False:
+                    pass
+                raise
+            else:
+                self._block(st.orelse)
+                if st.finalbody:
+                    self._block(st.finalbody)
         elif isinstance(st, ast.AugAssign) and isinstance(st.target, (ast.Subscript, ast.Attribute)):
             load = copy_load(st.target)
             self._assign(st.target, self.fold(ast.BinOp(left=load, op=st.op, right=st.value)))
@@ -1323,6 +1455,8 @@ def build_structure(radii: Dict[str, float], extra: float) -> List[Cluster]:
                 for occ in OCC:
                     for d, cell in (dd[0], dd[2]):
                         cl.append(Cluster(len(cl), t, t, d, cell, same_res, na, nb, same_name, occ, "F"))
+    # two atoms at the very same position (superposed copies, alternate conformers sharing a position): distance exactly 0
+    cl.append(Cluster(len(cl), t, t, 0.0, "exactly 0 (coincident atoms)", False, True, True, False, "half+half", "T"))
     # different residues that agree on chain / number / insertion code: still two residues
     for twin in TWINS:
         for same_name in (True, False):
@@ -1553,7 +1687,9 @@ class ClashEval:
             if isinstance(item, PairIdx):
                 ij = (int(item[0]), int(item[1]))
                 break
-            if isinstance(item, tuple) and len(item) == 2 and all(_isidx(x) for x in item) and any(isinstance(x, IdxS) for x in item):
+            if isinstance(item, tuple) and len(item) == 2 and isinstance(item[0], tuple) and not isinstance(item[0], PairIdx):
+                item = item[0] + (item[1],)  # ((i, j), distance) of a sparse matrix's items()
+            if isinstance(item, tuple) and len(item) in (2, 3) and all(_isidx(x) for x in item[:2]) and any(isinstance(x, IdxS) for x in item[:2]) and (len(item) == 2 or isinstance(item[2], float)):
                 ij = (int(item[0]), int(item[1]))
                 break
             if isinstance(item, IdxS):
@@ -1703,6 +1839,20 @@ def check_find_clashes(chk, fi, radii: Dict[str, float], extra: float) -> Option
     dev = ce.deviations()
     o = lambda opts, **kw: all(opts[k] == v for k, v in kw.items())
 
+    seen_pairs: Dict[Tuple, set] = {}
+
+    def examined(key) -> set:
+        """clusters whose pair met at least one traced condition in the run with these options"""
+        if not seen_pairs:
+            for node, recs in ce.trace.values():
+                for tag, ctx, _ in recs:
+                    if tag and tag[0] == "big":
+                        pr = ce._pair_of(tag, ctx)
+                        if pr is not None and pr[0] is not None and pr[0].cluster is not None and pr[1] is not None and pr[0].cluster is pr[1].cluster and pr[0] is not pr[1]:
+                            seen_pairs.setdefault(tag[-1], set()).add(pr[0].cluster.idx)
+            seen_pairs.setdefault(None, set())
+        return seen_pairs.get(key, set())
+
     def say(d) -> str:
         opts, c, want = d
         thr = radii.get(c.ta, 0) + radii.get(c.tb, 0) + (extra if opts["enable_molprobity_mode"] else 0.0) if c.ta in radii and c.tb in radii else None
@@ -1715,6 +1865,9 @@ def check_find_clashes(chk, fi, radii: Dict[str, float], extra: float) -> Option
                 if pts_ is not None and not any(atom_ is x for x in pts_) and not gone:
                     last_ = ce.trace.last.get((tag_, atom_.k))
                     gone = f"; atom {atom_.name} (occupancy {atom_.occupancy}) is never put into the KD-tree" + (f": dropped at line {getattr(last_[0], 'lineno', '?')} where `{norm(last_[0])[:60]}` is {last_[1]}" if last_ else "")
+        if want and not gone and c.idx not in examined(tuple(opts[k] for k in OPTIONS)):
+            q_ = ce.query_stmts[0] if ce.query_stmts else None
+            gone = "; both atoms are in the KD-tree but the pair never reaches a filter: the candidate enumeration" + (f" (line {q_.lineno}: `{norm(q_)[:90]}`)" if q_ is not None else "") + " does not yield it"
         reach = f"; the KD-tree search radius {R[0]:.2f} A does not reach it" if want and len(set(R)) == 1 and c.dist > R[0] else ""
         return f"with {optstr(opts)} the pair [{c.describe()}] is {'not listed but is a clash' if want else 'listed but is not a clash'} by the definition" + (f" (threshold {thr:.2f} A{reach}{gone})" if thr is not None else gone)
 
@@ -1835,6 +1988,26 @@ class WriterS(Stub):
             self.writerow(r)
 
 
+class RowS(dict):
+    """one row of a metadata category: every item present, its value a token"""
+
+    def __init__(self, category: str):
+        dict.__init__(self)
+        self.category = category
+
+    def __missing__(self, item):
+        return f"«m{self.category}.{item}»"
+
+    def get(self, item, default=None):
+        return self[item]
+
+    def __contains__(self, item):
+        return True
+
+    def __bool__(self):
+        return True
+
+
 class MetaS(Stub):
     """read_metadata result: any category -> one row -> any item -> a token."""
 
@@ -1903,7 +2076,7 @@ def representative_clashes():
 
 
 class MainEval:
-    def __init__(self, repo, mn, clashes, csv_path: Optional[str], reverse_sets: bool, switches_on: bool = True):
+    def __init__(self, repo, mn, clashes, csv_path: Optional[str], reverse_sets: bool, switches_on: bool = True, meta_class: Optional[Tuple[str, Optional[str]]] = None):
         self.cap = cap = Capture()
         # the structure of the input file: a nucleotide of a polynucleotide chain, a nucleotide ligand, an amino acid
         cap.structure = [ResidueS("«cA»", 1, [], True, token="«sA1»"), ResidueS("«cA»", 201, [], True, token="«sA201 nucleotide ligand»", name="2BA"), ResidueS("«cB»", 7, [], False, token="«sB7 amino acid»", name="ALA")]
@@ -1999,7 +2172,21 @@ class MainEval:
 
             def read_metadata(f, *a, **k):
                 cap.meta_args.append(f)
-                return MetaS()
+                cats = a[0] if a else k.get("categories")
+                if meta_class is None or not (isinstance(cats, (list, tuple)) and all(isinstance(c_, str) for c_ in cats)):
+                    return MetaS()
+                cap.meta_categories = list(cats)
+                # metareader.read_metadata: {category: [row dict, ...]}, [] for a category the file does not have
+                kind, which = meta_class
+                out_ = {}
+                for c_ in cats:
+                    if kind == "no category" and (which is None or which == c_):
+                        out_[c_] = []
+                    elif kind == "no item":
+                        out_[c_] = [{}]
+                    else:
+                        out_[c_] = [RowS(c_)]
+                return out_
 
             def _exit(*a):
                 raise Exit()
@@ -2304,7 +2491,13 @@ def check_main(chk, mn, fi=None) -> Optional[str]:
             nums = head[2]
             if not nums:
                 return f"heading `{head[3].strip()[:60]}` prints no number: report layout not understood"
-            if not vals or not any(math.isclose(x, max(vals), abs_tol=1e-12) for x in nums):
+            if not vals:
+                st_, fmt = site_of.get(head[3], (None, []))
+                if maxima_site[0] is None and st_ is not None:
+                    maxima_site[0] = st_
+                add("report-maxima", f"heading `{TOK.sub(lambda m_: m_.group(0)[1:-1], head[3].strip())[:110]}` is printed (line {st_.lineno if st_ is not None else '?'}) although no atom clash is listed below it: the block does not correspond to any clash found, its maximum {nums[0]} is not the maximum over listed clashes (an entry of the grouping container that no clash was filed under)")
+                continue
+            if not any(math.isclose(x, max(vals), abs_tol=1e-12) for x in nums):
                 st_, fmt = site_of.get(head[3], (None, []))
                 src = [e for e, v in fmt if any(math.isclose(v, x, abs_tol=1e-12) for x in nums)]
                 by = f" (line {st_.lineno}: the value of `{src[-1]}`)" if st_ is not None and src else (f" (line {st_.lineno})" if st_ is not None else "")
@@ -2370,6 +2563,45 @@ def check_main(chk, mn, fi=None) -> Optional[str]:
         add("report-clashes", "the printed report differs between runs with and without --csv")
     if any(_tokens(ln)[0] for ln in empty.cap.lines) or parse_rows(empty.cap.rows):
         add("report-clashes", "clashes are reported although find_clashes found none")
+    # ---- the CSV is written whatever metadata the file has ------------------------------------------------------------------
+    # (read_metadata gives [] for a category the file lacks - no `refine` for NMR / EM / assemblies, nothing at all for a
+    # PDB-format file - and a row need not have every item): in every class the CSV rows are exactly the clashes
+    chk.robust |= {"csv-metadata-total"}
+    cats = None
+    try:
+        probe = MainEval(repo, mn, L, "/out/«csv».csv", False, meta_class=("all", None))
+        cats = getattr(probe.cap, "meta_categories", None)
+    except (Unknown, Raised, RecursionError, TypeError, AttributeError, NotConst):
+        cats = None
+    if not cats:
+        if cap.meta_args:
+            chk.error("csv-metadata-total", msite, "the categories asked of read_metadata are not a literal list: the metadata classes (category absent, item absent) are not evaluated")
+    else:
+        classes = [("all", None, "every category present")] + [("no category", c_, f"category `{c_}` absent (read_metadata gives [] for it)") for c_ in cats] + [("no category", None, "no category at all (a PDB-format file: every category is [])"), ("no item", None, "the rows lack the items asked for")]
+        bad_meta: List[Tuple[str, Any]] = []
+        unread_meta = None
+        for kind, which, label in classes:
+            try:
+                run_ = MainEval(repo, mn, L, "/out/«csv».csv", False, meta_class=(kind, which))
+            except Raised as ex:
+                bad_meta.append((f"with {label} main raises {ex.what}: the CSV is left with its header only, no clash is written", ex.node))
+                continue
+            except (Unknown, RecursionError, TypeError, AttributeError, NotConst) as ex:
+                unread_meta = f"with {label}: {str(ex)[:100]}"
+                continue
+            got_rows = []
+            for cells, occ, row in parse_rows(run_.cap.rows):
+                pairs_ = [(rs, at) for rs, at in cells if len(rs) == 1 and len(at) == 1]
+                if len(pairs_) == 2 and occ:
+                    pr_ = tuple(sorted(p_[1][0] for p_ in pairs_))
+                    got_rows.append((pr_, pick(pr_, occ)))
+            if sorted(got_rows) != want:
+                bad_meta.append((f"with {label} the CSV holds {len(got_rows)} rows for {len(want)} clashes", None))
+        if unread_meta and not bad_meta:
+            chk.error("csv-metadata-total", msite, f"main not evaluable {unread_meta}")
+        else:
+            node_ = next((nd for _, nd in bad_meta if nd is not None), None)
+            chk.expect(not bad_meta, "csv-metadata-total", mn.site(node_) if node_ is not None else msite, f"the CSV rows are exactly the clashes in each of the {len(classes)} metadata classes (every category present; {', '.join('`%s`' % c_ for c_ in cats)} absent; no category at all; rows without the items)", bad_meta[0][0] if bad_meta else "", _K(mn, "csv-metadata"), found=[m_ for m_, _ in bad_meta[:4]] or None)
     # ---- obligations ---------------------------------------------------------------------------------------------------
     n = len(L)
     chk.expect("report-clashes" not in problems, "report-clashes", site, f"main evaluated on {n} representative clashes: the printed atom lines and the CSV rows are exactly the clashes found (no CSV without --csv, nothing for an empty list)", problems.get("report-clashes", [""])[0], _K(mn, "report-clashes"))
